@@ -548,9 +548,11 @@ def rule_validation_table(repo, rep):
 
 def rule_validate_vector(repo, rep):
   R = 'R-INTERP:validate-vector-table'
-  rep.rule(R, '_util.validate_vector interpreted for inputs whose squeezed '
-           'array has 0, 1, 2 or 3 dimensions: a scalar or a vector comes '
-           'back as a 1-D array, anything else is a ValueError')
+  rep.rule(R, '_util.validate_vector interpreted on eleven input shapes '
+           '((), (1,), (4,), (1,4), (4,1), (1,1), (1,1,4), (3,4), (2,3,4), '
+           '(1,3,4), (3,1,4)) with arrays modelled by their shapes: an input '
+           'with at most one non-unit axis comes back as the 1-D array of its '
+           'entries, anything else is a ValueError')
   f = repo.get_func('_util.validate_vector')
   if f is None:
     rep.unknown(R, '_util.validate_vector', '', 'function vanished')
@@ -558,62 +560,133 @@ def rule_validate_vector(repo, rep):
   rep.analysed(f)
   ps = f.params()
 
+  def size(shp):
+    n = 1
+    for x in shp:
+      n *= x
+    return n
+
+  def reshaped(shp, new):
+    new = list(new)
+    if new.count(-1) > 1 or any(not isinstance(x, int) for x in new):
+      raise Undecided('reshape%r' % (tuple(new),))
+    if -1 in new:
+      k = size([x for x in new if x != -1])
+      if k == 0 or size(shp) % k:
+        raise Raised(['ValueError'], None)
+      new[new.index(-1)] = size(shp) // k
+    if size(new) != size(shp):
+      raise Raised(['ValueError'], None)
+    return tuple(new)
+
   class W(World):
-    def __init__(self, nd):
-      self.nd = nd
+    """arrays are their shapes: S('vec', shape)"""
+    def __init__(self, shape):
+      self.shape = shape
 
     def attr(self, it, v, attr, node):
-      if tg(v) == 'vec' and attr == 'ndim':
-        return v[1]
-      if tg(v) == 'vec' and attr == 'shape':
-        return tuple([4] * v[1])
+      if tg(v) == 'vec':
+        if attr == 'ndim':
+          return len(v[1])
+        if attr == 'shape':
+          return v[1]
+        if attr == 'size':
+          return size(v[1])
+        if attr == 'T':
+          return S('vec', tuple(reversed(v[1])))
+      return NotImplemented
+
+    def subscript(self, it, base, idx, node):
+      if tg(base) == 'vec':
+        parts = idx if isinstance(idx, tuple) else (idx,)
+        if all(p is None or p == slice(None, None, None) or p is Ellipsis
+               for p in parts) and sum(1 for p in parts
+                                       if p == slice(None, None, None)) <= \
+                len(base[1]):
+          shp, rest = [], list(base[1])
+          for p in parts:
+            if p is None:
+              shp.append(1)
+            elif p is Ellipsis:
+              shp.extend(rest)
+              rest = []
+            else:
+              shp.append(rest.pop(0))
+          return S('vec', tuple(shp + rest))
+      return NotImplemented
+
+    def _fn(self, name, v, args, kwargs):
+      shp = v[1]
+      if name == 'squeeze' and not args and not kwargs:
+        return S('vec', tuple(x for x in shp if x != 1))
+      if name in ('ravel', 'flatten') and not args:
+        return S('vec', (size(shp),))
+      if name == 'reshape':
+        new = args[0] if len(args) == 1 and isinstance(
+            args[0], (tuple, list)) else args
+        return S('vec', reshaped(shp, new))
+      if name in ('astype', 'copy'):
+        return v
+      if name == 'atleast_1d' and not args:
+        return S('vec', shp if shp else (1,))
+      if name == 'atleast_2d' and not args:
+        return S('vec', shp if len(shp) >= 2 else (1,) + (shp or (1,)))
       return NotImplemented
 
     def call(self, it, d, recv, args, kwargs, node):
       if d.startswith('.'):
-        if d == '.squeeze' and tg(recv) == 'vecraw':
-          return S('vec', self.nd)
-        if d in ('.ravel', '.flatten') and tg(recv) in ('vec', 'vecraw'):
-          return S('vec', 1, 'flattened')
-        if d == '.astype' and tg(recv) in ('vec', 'vecraw'):
-          return recv
+        if tg(recv) == 'vec':
+          return self._fn(d[1:], recv, list(args), kwargs)
         return NotImplemented
       short = d.rsplit('.', 1)[-1]
       if d.startswith('numpy.'):
-        if short in ('asarray', 'array', 'ascontiguousarray') and args and \
-                args[0] == S('u'):
-          return S('vecraw')
-        if short == 'squeeze' and args and tg(args[0]) == 'vecraw':
-          return S('vec', self.nd)
-        if short == 'atleast_1d' and args and tg(args[0]) == 'vec':
-          return S('vec', max(1, args[0][1]))
-        if short == 'ndim' and args and tg(args[0]) == 'vec':
-          return args[0][1]
+        if short in ('asarray', 'array', 'ascontiguousarray',
+                     'asanyarray') and args and args[0] == S('u'):
+          return S('vec', self.shape)
+        if short in ('asarray', 'array', 'ascontiguousarray',
+                     'asanyarray') and args and tg(args[0]) == 'vec':
+          return args[0]
+        if args and tg(args[0]) == 'vec':
+          if short == 'ndim':
+            return len(args[0][1])
+          if short == 'shape':
+            return args[0][1]
+          if short == 'size':
+            return size(args[0][1])
+          return self._fn(short, args[0], list(args[1:]), kwargs)
+      if d == 'len' and args and tg(args[0]) == 'vec':
+        if not args[0][1]:
+          raise Raised(['TypeError'], node)
+        return args[0][1][0]
       return NotImplemented
   bad = unk = None
-  for nd in (0, 1, 2, 3):
-    w = W(nd)
+  for shape in ((), (1,), (4,), (1, 4), (4, 1), (1, 1), (1, 1, 4), (3, 4),
+                (2, 3, 4), (1, 3, 4), (3, 1, 4)):
+    w = W(shape)
+    nd = len([x for x in shape if x != 1])
     env = {ps[0]: S('u')}
     for p_ in ps[1:]:
       env[p_] = None
     try:
       out = Interp(repo, f, w).run(env)
     except Undecided as u:
-      unk = unk or '%s (%d-d input)' % (u, nd)
+      unk = unk or '%s (input of shape %r)' % (u, shape)
       continue
     if nd <= 1:
       if out[0] == 'raise':
-        bad = bad or 'raises %s for a %d-d input' % (out[1][0], nd)
-      elif out[1] != S('vec', 1):
-        bad = bad or 'returns %r for a %d-d input, expected a 1-D array' % (
-            out[1], nd)
+        bad = bad or 'raises %s for an input of shape %r' % (out[1][0],
+                                                              shape)
+      elif out[1] != S('vec', (size(shape),)):
+        bad = bad or 'returns %r for an input of shape %r, expected a 1-D ' \
+            'array of its %d entries' % (out[1], shape, size(shape))
     else:
       if out[0] != 'raise':
-        bad = bad or 'returns %r for an input that stays %d-dimensional ' \
-            'after squeezing (documented: ValueError)' % (out[1], nd)
+        bad = bad or 'returns %r for an input of shape %r, which stays ' \
+            '%d-dimensional after squeezing (documented: ValueError)' % (
+                out[1], shape, nd)
       elif 'ValueError' not in out[1]:
-        bad = bad or 'raises %s, not ValueError, for a %d-d input' % (
-            out[1][0], nd)
+        bad = bad or 'raises %s, not ValueError, for an input of shape %r' \
+            % (out[1][0], shape)
   key = '_util.validate_vector'
   if bad:
     rep.refuted(R, key, site(f), bad)
